@@ -227,11 +227,11 @@ const (
 
 // PKI is one certification authority hierarchy.
 type PKI struct {
-	Label                            string
+	Label                             string
 	RootKey, PlatKey, ProcKey, TcbKey *Key
-	Root, Plat, Proc, Tcb            *Cert
-	RootSpec, PlatSpec, ProcSpec     CertSpec
-	TcbSpec                          CertSpec
+	Root, Plat, Proc, Tcb             *Cert
+	RootSpec, PlatSpec, ProcSpec      CertSpec
+	TcbSpec                           CertSpec
 }
 
 func randSerial(r Rand) *big.Int {
